@@ -20,16 +20,18 @@ def Closed (s : St σ) (n : Nat) : Prop :=
 
 /-- the table invariant that holds in EVERY reachable state of the code as it is -/
 structure InvW (s : St σ) : Prop where
-  valid : ∀ i d h, s.fds[i]? = some d → d.path = some h → h < s.heap.length
-  inj : ∀ i j d d' h, s.fds[i]? = some d → s.fds[j]? = some d' → d.path = some h → d'.path = some h → i = j
-  freedClosed : ∀ i d h, s.fds[i]? = some d → d.path = some h → s.heap[h]? = some .freed → d.fd = -1 ∧ d.dir = none
-  std : ∀ i, i < 3 → s.fds[i]? = some ⟨i, none, none⟩ ∨ s.fds[i]? = some Desc.empty
+  valid : ∀ (i : Nat) (d : Desc) (h : Nat), s.fds[i]? = some d → d.path = some h → h < s.heap.length
+  inj : ∀ (i j : Nat) (d d' : Desc) (h : Nat),
+    s.fds[i]? = some d → s.fds[j]? = some d' → d.path = some h → d'.path = some h → i = j
+  freedClosed : ∀ (i : Nat) (d : Desc) (h : Nat),
+    s.fds[i]? = some d → d.path = some h → s.heap[h]? = some Cell.freed → d.fd = -1 ∧ d.dir = none
+  std : ∀ i : Nat, i < 3 → s.fds[i]? = some ⟨i, none, none⟩ ∨ s.fds[i]? = some Desc.empty
 
 /-- the invariant DESIGN §5 asks for: every stored path is live, and a closed slot is the empty descriptor -/
 structure InvS (s : St σ) : Prop extends InvW s where
-  live : ∀ i d h, s.fds[i]? = some d → d.path = some h → ∃ p, s.heap[h]? = some (.live p)
+  live : ∀ (i : Nat) (d : Desc) (h : Nat), s.fds[i]? = some d → d.path = some h → ∃ p, s.heap[h]? = some (Cell.live p)
 
-theorem readHeap_eq (heap : List Cell) (h : HeapId) :
+theorem readHeap_eq (heap : List Cell) (h : Nat) :
     (∃ p, heap[h]? = some (.live p) ∧ readHeap heap h = .val p) ∨
     (heap[h]? = some .freed ∧ readHeap heap h = .ub .useAfterFree) ∨
     (heap[h]? = none ∧ readHeap heap h = .ub .outOfBounds) := by
@@ -38,7 +40,7 @@ theorem readHeap_eq (heap : List Cell) (h : HeapId) :
   | none => simp
   | some c => cases c <;> simp
 
-theorem freeHeap_eq (heap : List Cell) (h : HeapId) :
+theorem freeHeap_eq (heap : List Cell) (h : Nat) :
     (∃ p, heap[h]? = some (.live p) ∧ freeHeap heap h = .val (heap.set h .freed)) ∨
     (heap[h]? = some .freed ∧ freeHeap heap h = .ub .doubleFree) ∨
     (heap[h]? = none ∧ freeHeap heap h = .ub .outOfBounds) := by
@@ -86,70 +88,103 @@ theorem tableAdd_spec (s s' : St σ) (fd : Int) (path : Bytes) (idx : Nat)
     exact ⟨rfl, rfl, rfl, rfl, rfl⟩
   · simp at h
 
+theorem getElem?_snoc {α : Type} (l : List α) (x : α) (i : Nat) (d : α) :
+    (l ++ [x])[i]? = some d ↔ (i < l.length ∧ l[i]? = some d) ∨ (i = l.length ∧ d = x) := by
+  rw [List.getElem?_append]
+  split
+  · rename_i h; constructor
+    · intro h'; exact Or.inl ⟨h, h'⟩
+    · rintro (⟨_, h'⟩ | ⟨h', _⟩)
+      · exact h'
+      · omega
+  · rename_i h
+    cases hk : i - l.length with
+    | zero =>
+      have : i = l.length := by omega
+      simp [this, eq_comm]
+    | succ k =>
+      simp only [List.getElem?_cons_succ, List.getElem?_nil]
+      constructor
+      · intro h'; cases h'
+      · rintro (⟨h', _⟩ | ⟨h', _⟩) <;> omega
+
+theorem InvW_len (s : St σ) (hi : InvW s) : 3 ≤ s.fds.length := by
+  rcases hi.std 2 (by omega) with h2 | h2 <;>
+  · have := (List.getElem?_eq_some_iff.mp h2).1; omega
+
 theorem InvW_tableAdd {s s' : St σ} {fd : Int} {path : Bytes} {idx : Nat}
     (h : tableAdd s fd path = some (s', idx)) (hi : InvW s) : InvW s' := by
   obtain ⟨_, hf, hh, _, _⟩ := tableAdd_spec s s' fd path idx h
-  have hstd3 : 3 ≤ s.fds.length := by
-    rcases hi.std 2 (by omega) with h2 | h2 <;>
-    · have := (List.getElem?_eq_some_iff.mp h2).1; omega
+  have hstd3 := InvW_len s hi
   constructor
   · intro i d hp hd hpath
-    rw [hf, List.getElem?_append] at hd
+    rw [hf, getElem?_snoc] at hd
     rw [hh, List.length_append]
-    split at hd
+    rcases hd with ⟨_, hd⟩ | ⟨_, hd⟩
     · have := hi.valid i d hp hd hpath; simp; omega
-    · have : i - s.fds.length = 0 := by
-        by_contra hne
-        have : ([({ fd := fd, dir := none, path := some s.heap.length } : Desc)])[i - s.fds.length]? = none := by
-          apply List.getElem?_eq_none; simp; omega
-        rw [this] at hd; simp at hd
-      rw [this] at hd; simp at hd; subst hd; simp at hpath; subst hpath; simp
+    · subst hd; simp at hpath; subst hpath; simp
   · intro i j d d' hp hd hd' hpath hpath'
-    rw [hf, List.getElem?_append] at hd hd'
-    split at hd <;> split at hd'
+    rw [hf, getElem?_snoc] at hd hd'
+    rcases hd with ⟨_, hd⟩ | ⟨hil, hd⟩ <;> rcases hd' with ⟨_, hd'⟩ | ⟨hjl, hd'⟩
     · exact hi.inj i j d d' hp hd hd' hpath hpath'
-    · rename_i hlt hge
-      have hv := hi.valid i d hp hd hpath
-      have : j - s.fds.length = 0 := by
-        by_contra hne
-        have : ([({ fd := fd, dir := none, path := some s.heap.length } : Desc)])[j - s.fds.length]? = none := by
-          apply List.getElem?_eq_none; simp; omega
-        rw [this] at hd'; simp at hd'
-      rw [this] at hd'; simp at hd'; subst hd'; simp at hpath'; omega
-    · rename_i hge hlt
-      have hv := hi.valid j d' hp hd' hpath'
-      have : i - s.fds.length = 0 := by
-        by_contra hne
-        have : ([({ fd := fd, dir := none, path := some s.heap.length } : Desc)])[i - s.fds.length]? = none := by
-          apply List.getElem?_eq_none; simp; omega
-        rw [this] at hd; simp at hd
-      rw [this] at hd; simp at hd; subst hd; simp at hpath; omega
-    · rename_i hge hge'
-      have hi0 : i - s.fds.length = 0 := by
-        by_contra hne
-        have : ([({ fd := fd, dir := none, path := some s.heap.length } : Desc)])[i - s.fds.length]? = none := by
-          apply List.getElem?_eq_none; simp; omega
-        rw [this] at hd; simp at hd
-      have hj0 : j - s.fds.length = 0 := by
-        by_contra hne
-        have : ([({ fd := fd, dir := none, path := some s.heap.length } : Desc)])[j - s.fds.length]? = none := by
-          apply List.getElem?_eq_none; simp; omega
-        rw [this] at hd'; simp at hd'
+    · have hv := hi.valid i d hp hd hpath
+      subst hd'
+      have : s.heap.length = hp := by simpa using hpath'
       omega
+    · have hv := hi.valid j d' hp hd' hpath'
+      subst hd
+      have : s.heap.length = hp := by simpa using hpath
+      omega
+    · omega
   · intro i d hp hd hpath hfr
-    rw [hf, List.getElem?_append] at hd
+    rw [hf, getElem?_snoc] at hd
     rw [hh, List.getElem?_append] at hfr
-    split at hd
+    rcases hd with ⟨_, hd⟩ | ⟨_, hd⟩
     · have hv := hi.valid i d hp hd hpath
       simp only [hv, ↓reduceIte] at hfr
       exact hi.freedClosed i d hp hd hpath hfr
-    · have : i - s.fds.length = 0 := by
-        by_contra hne
-        have : ([({ fd := fd, dir := none, path := some s.heap.length } : Desc)])[i - s.fds.length]? = none := by
-          apply List.getElem?_eq_none; simp; omega
-        rw [this] at hd; simp at hd
-      rw [this] at hd; simp at hd; subst hd; simp at hpath; subst hpath
+    · subst hd; simp at hpath; subst hpath
       simp at hfr
   · intro i hi3
     rw [hf, List.getElem?_append_left (by omega)]
     exact hi.std i hi3
+
+/-! ## fd_close -/
+
+/-- what a returning `fd_close` did to the table -/
+theorem fdClose_val (cfg : Cfg) (H : Host σ) (s s' : St σ) (n : Nat) (r : Res)
+    (h : fdClose cfg H s n = .val (s', r)) :
+    (s'.fds = s.fds ∧ s'.heap = s.heap ∧ s'.mem = s.mem ∧ r ≠ .errno 0 []) ∨
+    (∃ d, s.fds[n]? = some d ∧ r = .errno 0 [] ∧ s'.mem = s.mem ∧
+      s'.fds = s.fds.modify n (fun e => ⟨-1, none, if cfg.closeClearsPath then none else e.path⟩) ∧
+      ((d.path = none ∧ s'.heap = s.heap) ∨
+       (∃ hp p, d.path = some hp ∧ s.heap[hp]? = some (.live p) ∧ s'.heap = s.heap.set hp .freed))) := by
+  unfold fdClose at h
+  simp only [getDesc] at h
+  split at h
+  · simp at h; obtain ⟨h1, h2⟩ := h; subst h1 h2; left; simp [BADF, Gen.Wasi.WASI_ERRNO_BADF]
+  · rename_i d hd
+    split at h
+    · simp at h; obtain ⟨h1, h2⟩ := h; subst h1 h2; left; simp [BADF, Gen.Wasi.WASI_ERRNO_BADF]
+    · split at h
+      · simp at h; obtain ⟨h1, h2⟩ := h; subst h1 h2; left; simp
+      · simp at h; obtain ⟨h1, h2⟩ := h; subst h1 h2; left; simp [BADF, Gen.Wasi.WASI_ERRNO_BADF]
+      · rename_i h' u hr
+        right
+        refine ⟨d, hd, ?_⟩
+        cases hp : d.path with
+        | none =>
+          simp [hp, setDesc] at h
+          obtain ⟨h1, h2⟩ := h
+          subst h1 h2
+          simp
+        | some hpp =>
+          simp only [hp] at h
+          rcases freeHeap_eq s.heap hpp with ⟨p, hl, hf⟩ | ⟨_, hf⟩ | ⟨_, hf⟩
+          · rw [hf] at h
+            simp [setDesc] at h
+            obtain ⟨h1, h2⟩ := h
+            subst h1 h2
+            simp [hl]
+          · rw [hf] at h; simp at h
+          · rw [hf] at h; simp at h
